@@ -142,6 +142,7 @@ impl ConnObj {
 /// everything the harness-written sources and sinks share during one case
 pub struct World {
   pub cur: usize,                               // index of the stimulus being applied
+  pub in_cur: usize,                            // events logged during that stimulus
   pub log: Vec<(usize, Obs)>,                   // (stimulus index, event)
   pub regs: Vec<Vec<Observer<'static, i64>>>,   // probe id -> registered observers, in subscription order
   pub inner: Vec<O>,                            // inner observables handed out by window_with_count / group_by
@@ -150,9 +151,15 @@ pub struct World {
   pub tok_ops: Arc<()>,                         // captured by every closure handed to an operator (C17)
 }
 pub type W = Arc<Mutex<World>>;
+pub const MAX_LOG: usize = 150;
 pub fn log(w: &W, o: &str, u: i64, k: &str, v: i64, ww: i64) {
   let mut g = w.lock().unwrap();
   let cur = g.cur;
+  // an endless producer is cut off by the runtime's step budget; keep only the first MAX_LOG events of a stimulus
+  if g.in_cur >= MAX_LOG {
+    return;
+  }
+  g.in_cur += 1;
   g.log.push((cur, Obs { o: o.into(), u, k: k.into(), v, w: ww }));
 }
 pub fn enc_list(v: &[i64]) -> i64 {
